@@ -344,9 +344,13 @@ impl ActorCell {
                 // unregistry from the PID registry
                 crate::registry::pid_registry::unregister_pid(self.get_id());
             }
-            // If it's enrolled in the registry, remove it
-            if let Some(name) = self.get_name() {
-                crate::registry::unregister(name);
+            // If it's enrolled in the registry, remove it. Remote actors carry the name their
+            // original has on its own node but are never enrolled here (see `new_remote`): the
+            // name may belong to a local actor, which must keep it.
+            if self.get_id().is_local() {
+                if let Some(name) = self.get_name() {
+                    crate::registry::unregister(name);
+                }
             }
             // Leave all + stop monitoring pg groups (if any)
             crate::pg::demonitor_all(self.get_id());
